@@ -227,6 +227,21 @@ def ME.flatList : List ME → Bool
   | e :: es => e.flat && ME.flatList es
 end
 
+/-- number of elements of an iterator whose source does not depend on the environment -/
+def Src.count? : Src → Option Nat
+  | .range (.lit a) (.lit b) inc => some (rangeVals a b inc).length
+  | .range _ _ _ => none
+  | .arr xs => some xs.length
+  | .enumArr xs => some xs.length
+  | .zip2 xs ys => some (zip [xs, ys]).length
+/-- product of the sizes of the iteration sets (`none` if one of them depends on the environment) -/
+def iterProduct : List It → Option Nat
+  | [] => some 1
+  | it :: rest => do
+    let n ← it.src.count?
+    let m ← iterProduct rest
+    pure (n * m)
+
 mutual
 /-- the parser's static arity rule (`parse_block_function`: `abs` takes exactly one expression),
 checked on the whole text before anything is expanded -/
